@@ -29,11 +29,24 @@ def run_property(prop: str, tier: str, seed: int) -> int:
         print(f"no contract module for {prop}")
         return EXIT_FAULT
     chk = Check(prop, tier, seed)
+    # wall-clock budget of the symbolic interpretation (VC generation): a change that makes a summary explode must end as
+    # "undecided" in bounded time, not hang the check
+    import signal
+    budget = int(os.environ.get("WGVC_BUILD_BUDGET_S", "1500" if tier == "quick" else "5400"))
+
+    def on_alarm(signum, frame):
+        raise Undecided(f"interpretation of the contracted functions exceeded the time budget of {budget} s")
     try:
         mod = importlib.import_module(mods[prop])
         chk.level = getattr(mod, "LEVEL", "proof")
         chk.explanation = getattr(mod, "EXPLANATION", "")
-        mod.build(chk)
+        old = signal.signal(signal.SIGALRM, on_alarm)
+        signal.alarm(budget)
+        try:
+            mod.build(chk)
+        finally:
+            signal.alarm(0)
+            signal.signal(signal.SIGALRM, old)
         chk.run()
         return chk.finish([], getattr(mod, "MIN_OBLIGATIONS", 1))
     except (Undecided, source.SourceError, EncodeError) as exc:
